@@ -15,9 +15,9 @@ def run_balance(ctx, r, tier, what=("balance", "push-only-zero", "zero-is-pushed
                                     "remove-outcome", "dec-result")):
     prog = ctx.prog
     n_paths = 0
-    for p in sorted(ctx.role_bodies().keys()):
+    for p in ctx.apply_roots():
         b = prog.bodies[p]
-        ab = balance.ApplyBody(ctx, b)
+        ab = balance.ApplyBody(ctx, ctx.apply_view(p))
         for pr in ab.problems:
             r.bad("apply-body", b, pr)
         results = ab.paths(unroll=1 if tier == "quick" else 2)
@@ -133,18 +133,15 @@ def rules(ctx, tier):
                    "delete callback, losing elements only to the intents filter",
              "a blob whose last reference was removed stays in cas/ forever")
     n = 0
-    for b in prog.bodies.values():
-        for site in b.calls():
-            if site.path not in FN_TRAIT_CALLS or site.callee.get("rk") != "virtual":
-                continue
-            if "BLOB_UNLINK" not in c04.site_sem(ctx, site):
-                continue
+    for (V, owner, dels, applies_v) in c04.delete_sections(ctx):
+        b = V
+        for site in dels:
             n += 1
             # the callback site is reached whenever the list is non-empty: the only branch around it tests is_empty(list)
             ops = ctx.world.vfg._tuple_ops(b, place_of(site.term["args"][1])["l"])
             V = ctx.world.borrowed_local(b, ops[0]) if ops else None
             skips = []
-            appl = [s for s in b.calls() if c04._reaches_apply(ctx, s)]
+            appl = applies_v
             for a in appl:
                 region = cfgutil.reach(b, a.term["t"]) & c04._can_reach(b, site.bb)
                 for x in region:
@@ -156,23 +153,36 @@ def rules(ctx, tier):
                             continue
                         # this edge skips the delete: it must be `list.is_empty()` or an error exit
                         c = cfgutil.switch_condition(b, x)
-                        rf = ctx.must(None).rf(b)
+                        rf = ctx.rf(b)
                         blocks = cfgutil.reach(b, tgt)
+                        if not any(b.blocks[y]["term"]["k"] == "return" for y in blocks):
+                            continue        # this edge ends in a panic: nothing returns, nothing is skipped
                         if any(rf.forwarded.get(y) == "err" for y in blocks) and not any(rf.forwarded.get(y) == "ok" for y in blocks):
                             continue
                         okc = False
                         if c and c[0] == "call" and c[1].endswith("Vec::is_empty"):
                             okc = ctx.world.borrowed_local(b, c[2]["args"][0]) == V
                         skips.append((x, okc))
-            r.check(all(o for _, o in skips), "delete-unless-empty", b,
-                    "in %s the delete callback at %s is skipped only when the list is empty (or on error)" % (b.path, site_where(site)),
+            r.check(all(o for _, o in skips), "delete-unless-empty", owner,
+                    "in %s the delete callback at %s is skipped only when the list is empty (or on error)" % (owner.path, site_where(site)),
                     "in %s the delete callback at %s can be skipped although the list is not empty (%s)" % (
-                        b.path, site_where(site), ", ".join("%s:%d" % (b.file, b.blocks[x]["span"]["line"]) for x, o in skips if not o)),
+                        owner.path, site_where(site), ", ".join("%s:%d" % (b.blocks[x]["span"].get("file", b.file), b.blocks[x]["span"]["line"]) for x, o in skips if not o)),
                     site_where(site))
-            # errors of the callback propagate
-            rf = ctx.must(None).rf(b)
-            r.check(bool(rf.err_edges_of(site.bb)), "delete-error-propagates", b,
-                    "a failed delete makes %s return an error" % b.path, "the result of the delete callback in %s is ignored" % b.path)
+            # errors of the callback propagate: its result is branched on, or handed on as the result of a helper
+            # whose result is branched on
+            rf = ctx.rf(b)
+            tested = bool(rf.err_edges_of(site.bb))
+            if not tested:
+                # forwarded through map_err into a local that the caller tests: no path from the call to an Ok return
+                # of the view avoids a branch on a Result that depends on it -> approximated by provenance
+                sl_ = Slicer(ctx.world, b, skip_err=False)
+                for sw in b.normal_blocks():
+                    c = cfgutil.switch_condition(b, sw)
+                    if c and c[0] == "discr":
+                        if any(l[0] == "call" and l[2] == site.bb for l in sl_.leaves_of_place(c[1])):
+                            tested = True
+            r.check(tested, "delete-error-propagates", owner,
+                    "a failed delete makes %s return an error" % owner.path, "the result of the delete callback in %s is ignored" % owner.path)
     r.check(n >= 1, "callback-sites", None, "%d delete-callback site(s)" % n, "expected at least 1 delete-callback site, found %d" % n)
     r.need(3, "at least one callback site x2 + anchor (today: 2 sites)")
     out.append(r.finish())
